@@ -136,6 +136,8 @@ def read_routines(
     routine_infos = []
     named_coroutines = []
     routine_ops: MutableSequence[MutableSequence[SsbOperation]] = []
+    # The operations of a document are numbered starting at 1, no matter what was read before.
+    counter.count = 0
     for r in routines:
         if "ops" not in r:
             raise ValueError("Ops for a routine not set.")
